@@ -264,9 +264,13 @@ def bracket_body():
     res = []
     for variant in range(2):
         pruner = HyperbandPruner(min_resource=1, max_resource=max_res, reduction_factor=rf)
-        study = optuna.create_study(storage=InMemoryStorage(), pruner=pruner, study_name=name or "x", sampler=optuna.samplers.RandomSampler(seed=variant))
-        if name == "":
-            study = optuna.create_study(storage=InMemoryStorage(), pruner=pruner, study_name="x", sampler=optuna.samplers.RandomSampler(seed=variant))
+        storage = InMemoryStorage()
+        if variant == 1:
+            # another study shares the storage: trial ids differ from trial numbers
+            other = optuna.create_study(storage=storage, study_name="unrelated")
+            for _ in range(sx.choose([0, 1, 3], "id_offset")):
+                other.add_trial(create_trial(value=0.0))
+        study = optuna.create_study(storage=storage, pruner=pruner, study_name=name or "x", sampler=optuna.samplers.RandomSampler(seed=variant))
         ids = []
         for n in range(6):
             # different histories: states, attrs, values, reports
